@@ -36,7 +36,18 @@ PLAN4 = {
  'W4E-m1': ('E', ['C07','C06']), 'W4E-m2': ('E', ['C07']),
  'W4F-m1': ('F', ['C12']), 'W4F-m2': ('F', ['C12','C06']),
 }
+PLAN5 = {
+ 'W5A-m1': ('A', ['C08']), 'W5A-m2': ('A', ['C08']),
+ 'W5B-m1': ('B', ['C05']), 'W5B-m2': ('B', ['C05']),
+ 'W5C-m1': ('C', ['C17']), 'W5C-m2': ('C', ['C17']),
+ 'W5D-m1': ('D', ['C19']), 'W5D-m2': ('D', ['C19']),
+ 'W5E-m1': ('E', ['C12']), 'W5E-m2': ('E', ['C12']),
+ 'W5F-m1': ('F', ['C09']), 'W5F-m2': ('F', ['C09']),
+}
 SRC = {}
+for k, (d, checks) in PLAN5.items():
+    PLAN[k] = checks
+    SRC[k] = f'/tmp/mut5-{d}/out/{k.split("-")[1]}'
 for k, (d, checks) in PLAN4.items():
     PLAN[k] = checks
     SRC[k] = f'/tmp/mut4-{d}/out/{k.split("-")[1]}'
